@@ -139,6 +139,13 @@ func (i *interpreter) bind(fr *frame, src value, dst types.Type, path string) va
 	}
 	switch u := dst.Underlying().(type) {
 	case *types.Interface:
+		if x, ok := src.(iface); ok && x.t != nil {
+			switch x.t.Underlying().(type) {
+			case *types.Pointer, *types.Struct:
+				// an already typed value (a decoded known extension): kept as it is
+				return x
+			}
+		}
 		return asAny(raw)
 	case *types.Basic:
 		return i.bindBasic(fr, raw, dst, u, path)
@@ -377,6 +384,37 @@ func init() {
 					panic(r)
 				}
 			}()
+			if _, isIface := pt.Elem().Underlying().(*types.Interface); isIface {
+				// decoding into an interface that already holds a typed value (a known extension's prototype):
+				// like mapstructure, decode into that type - a struct value is replaced by a decoded copy, a nil
+				// pointer gets a fresh pointee, a non-nil pointer is decoded into in place
+				if cur, ok := load(pt.Elem(), target.v.(*value)).(iface); ok && cur.t != nil {
+					switch ct := cur.t.Underlying().(type) {
+					case *types.Struct:
+						i.bindInit = cur.v
+						v := i.bind(fr, a[0], cur.t, "")
+						i.bindInit = nil
+						store(pt.Elem(), target.v.(*value), iface{t: cur.t, v: v})
+						res = iface{}
+						return
+					case *types.Pointer:
+						if _, ok := ct.Elem().Underlying().(*types.Struct); ok {
+							cell, _ := cur.v.(*value)
+							if cell == nil {
+								z := zero(ct.Elem())
+								cell = &z
+							}
+							i.bindInit = *cell
+							v := i.bind(fr, a[0], ct.Elem(), "")
+							i.bindInit = nil
+							*cell = v
+							store(pt.Elem(), target.v.(*value), iface{t: cur.t, v: cell})
+							res = iface{}
+							return
+						}
+					}
+				}
+			}
 			i.bindInit = load(pt.Elem(), target.v.(*value))
 			v := i.bind(fr, a[0], pt.Elem(), "")
 			i.bindInit = nil
